@@ -41,7 +41,7 @@ def main():
             shutil.copy(os.path.join(tree, name), os.path.join(dest, name))
     ran = []
     # 1. suite with the change
-    proc = sh(["/venv/bin/python", "-m", "pytest", "-q", "-p", "no:cacheprovider", "-n", "12"], cwd=tree, env=env)
+    proc = sh(["/venv/bin/python", "-m", "pytest", "-q", "-p", "no:cacheprovider", "--timeout=900", "-n", "12"], cwd=tree, env=env)
     failed = [l for l in proc.stdout.splitlines() if l.startswith("FAILED")]
     suite_ok = all("bad_config_file" in l for l in failed) and bool(re.search(r"\b8\d\d\d passed", proc.stdout))
     tail = [l for l in proc.stdout.splitlines() if "passed" in l or "failed" in l][-1:] or proc.stdout.splitlines()[-1:]
